@@ -104,19 +104,27 @@ def add_glue_as_needed(*, _sys_modules_len_cache: list[int] = [0]) -> None:
     # tracebacks simultaneously
     with glue_lock:
         module_names = tuple(sys.modules)
+        missing = object()
+        visited = 0
         if _verif.ENABLED:
             _verif.point("glue_snapshot", names=module_names)
         for module_name in module_names:
             if _verif.ENABLED:
                 _verif.point("glue_next", module=module_name)
+            # Look the module up only once: if it has disappeared since we took
+            # the snapshot (say, a failed import in another thread, or a glue
+            # function that cleans up sys.modules), don't consume its glue now;
+            # it will be considered again if the module comes back.
+            module = sys.modules.get(module_name, missing)
+            if module is missing:
+                continue
+            visited += 1
             builtin_fn = builtin_glue_pending.pop(module_name, None)
             if _verif.ENABLED:
                 _verif.point("glue_popb", module=module_name, builtin=builtin_fn)
             try:
-                module_fn = sys.modules[module_name].__dict__.pop(
-                    "_stackscope_install_glue_", None
-                )
-            except Exception:  # module disappeared, doesn't have a dict, etc
+                module_fn = module.__dict__.pop("_stackscope_install_glue_", None)
+            except Exception:  # module doesn't have a dict, etc
                 module_fn = None
             if _verif.ENABLED:
                 _verif.point(
@@ -145,8 +153,10 @@ def add_glue_as_needed(*, _sys_modules_len_cache: list[int] = [0]) -> None:
             if _verif.ENABLED:
                 _verif.point("glue_called", module=module_name)
         # Only update the length cache if we visited every module (rather
-        # than bailing out with an exception)
-        _sys_modules_len_cache[0] = len(module_names)
+        # than bailing out with an exception). Modules that we skipped because
+        # they had disappeared don't count, so that we'll look again if they
+        # come back.
+        _sys_modules_len_cache[0] = visited
         if _verif.ENABLED:
             _verif.point("glue_cache", cache=_sys_modules_len_cache[0])
     if _verif.ENABLED:
@@ -682,6 +692,7 @@ def glue_trio() -> None:
     @elaborate_frame.register(trio.from_thread.run)
     def elaborate_from_thread_run(frame: Frame, next_inner: object) -> object:
         missing = object()
+        visited = 0
         token_provided = frame.pyframe.f_locals.get("token_provided")
         trio_token = frame.pyframe.f_locals.get("trio_token", missing)
         if trio_token is missing:  # pragma: no cover
